@@ -106,6 +106,7 @@ type qgen struct {
 	subN   int
 	depth  int
 	maxDep int
+	nt     int
 }
 
 func (g *qgen) tag(f string) { g.feat[f] = true }
@@ -179,6 +180,12 @@ func (g *qgen) joinCond(l, r string) string {
 		g.tag("on:eq+filter")
 		return fmt.Sprintf("%s.a = %s.a AND %s", l, r, g.filter([]string{l, r}[g.rnd.Intn(2)]))
 	default:
+		if g.nt > 2 {
+			// excluded class nse-join-transitive-equality: two <=> conditions sharing a column make the
+			// planner derive a plain equality; <=> join conditions only in two-table queries
+			g.tag("on:eq")
+			return fmt.Sprintf("%s.b = %s.b", l, r)
+		}
 		g.tag("on:nse")
 		return fmt.Sprintf("%s.a <=> %s.a", l, r)
 	}
@@ -275,6 +282,7 @@ func GenQuery(rnd *rand.Rand, tabs []*Table, o QueryOpts) Query {
 	default:
 		qy.Shape = "cte"
 	}
+	g.nt = nt
 	var from strings.Builder
 	var used []string
 	cte := ""
